@@ -40,7 +40,15 @@ def decide(pid, names, tier, pool=6):
         o.status, o.detail = 'inconclusive', msg
         return [o]
     exe = kani.build_replay('release')
-    budgets = '10000,120000' if tier == 'quick' else '20000,600000'
+    if tier == 'quick':
+        import common as _c
+        for n_ in names:
+            if n_ in ('L-sq-q', 'L-sq-r'):
+                _c.QUICK_SKIPPED.append('L %s (U256::square: ~20 min of z3)' % n_)
+        names = [n_ for n_ in names if n_ not in ('L-sq-q', 'L-sq-r')]
+    # longer solver budgets only on request: with them the undecided U256::square value goal costs more than an hour
+    # before it is withdrawn again (measured), which helps nobody in a registered command
+    budgets = '20000,600000' if (tier != 'quick' and os.environ.get('VERIF_L_LONG')) else '10000,120000'
     lh = dir_hash(LDIR)
     th = tree_hash()
 
